@@ -178,6 +178,27 @@ def judge(i):
             r = SpaceGroup.from_symmetry_operations(red, expand_latt=sg.latt)
             if r.international_tables_number != e.number or sorted(int(s.integer_code) for s in r.symmetry_operations) != sorted(codes):
                 return f"{tag}: lookup from the reduced description (LATT {sg.latt}, {len(red)} ops) returned {r.international_tables_number}:{r.choice}"
+            # the description as SHELX files carry it: the SYMM cards never list the identity
+            noid = [o for o in sg.reduced_symmetry_operations() if int(o.integer_code) != 16484]
+            r3 = SpaceGroup.from_symmetry_operations(noid, expand_latt=sg.latt)
+            if r3.international_tables_number != e.number or sorted(int(s.integer_code) for s in r3.symmetry_operations) != sorted(codes):
+                return f"{tag}: lookup from the reduced description without the identity card (LATT {sg.latt}, {len(noid)} SYMM) returned {r3.international_tables_number}:{r3.choice}"
+            # B-centred settings (the table files them under 'primitive' with the centring as an operation): SHELX lattice type 6 is an
+            # equally legal description of them
+            from chmpy.crystal.symmetry_operation import reduced_symmetry_list
+            if abs(sg.latt) == 1 and 17140694 in codes:      # 1/2+x, y, 1/2+z
+                L6 = 6 if sg.latt > 0 else -6
+                r6 = SpaceGroup.from_symmetry_operations(reduced_symmetry_list(sg.symmetry_operations, L6), expand_latt=L6)
+                if r6.international_tables_number != e.number or sorted(int(s.integer_code) for s in r6.symmetry_operations) != sorted(codes):
+                    return f"{tag}: lookup from the B-centred description (LATT {L6}) returned {r6.international_tables_number}:{r6.choice}"
+            # ... and as the library itself writes it into a SHELX file (LATT + SYMM cards) and reads it back
+            from chmpy.core.element import Element
+            from chmpy.crystal import AsymmetricUnit, Crystal, UnitCell
+            cx = Crystal(UnitCell.from_lengths_and_angles([7.1, 8.2, 9.3], [1.45, 1.7, 1.62]), sg, AsymmetricUnit([Element[6]], np.array([[0.11, 0.27, 0.39]])))
+            cy = Crystal.from_shelx_string(cx.to_shelx_string())
+            if cy.space_group.international_tables_number != e.number or sorted(int(s.integer_code) for s in cy.space_group.symmetry_operations) != sorted(codes):
+                return (f"{tag}: written with to_shelx_string and read back, the space group is {cy.space_group.international_tables_number}:{cy.space_group.choice} "
+                        f"with {len(cy.space_group.symmetry_operations)} operations")
             # the same description (the very same list object) looked up a second time
             r2 = SpaceGroup.from_symmetry_operations(red, expand_latt=sg.latt)
             if r2.international_tables_number != e.number or sorted(int(s.integer_code) for s in r2.symmetry_operations) != sorted(codes):
